@@ -55,6 +55,10 @@ fn main() {
             }
             std::process::exit(run.finish());
         }
+        "digest-server" => {
+            engine::quiet_panics();
+            props::c08::digest_server();
+        }
         "replay" => {
             if args.len() < 4 {
                 usage();
